@@ -35,6 +35,11 @@ RULE = (
     "ponses (neither may return data); 40 reconfigure(credentials=<short-lived object>) block"
     "s with a collection between them (echo of the current community accepted, the previous o"
     "ne refused)."
+    " Lenient walks (errors='warn') are operations too: a foreign request-id, community or ve"
+    'rsion is refused there like anywhere. Three seconds after a refused or lost discovery re'
+    'ply the same client is accepted by a conformant agent. A later request that carries the '
+    'id of a response refused earlier gets ITS answer (the device holds other values by then)'
+    '.'
 )
 ASSUMPTIONS = [
     "the agent's engine clock is a separate frozen clock, so stepping the client's clock does not touch timeliness (C12)",
